@@ -20,6 +20,27 @@ pub fn by_name(name: &str) -> Option<Scenario> {
 }
 
 /// Every scenario of a tier (thorough ⊇ quick).
+/// Thorough only: copies of scenarios that reach unusual scheduler states (retractions, redirects,
+/// pre-sent tasks, multi-node reservations) in which the automatic allocator may ask its
+/// new-worker query at any moment (the query runs the batch builder and the solver on the live
+/// core with fake workers added).
+pub fn with_worker_query() -> Vec<Scenario> {
+    let names = ["prefill-hiprio", "prefill-3t-kill", "redirect-join", "redirect-gap", "mn-2n", "reject-compact-strict", "prefill2-hiprio-cancel"];
+    let mut v = Vec::new();
+    let base: Vec<Scenario> = prefill(false).into_iter().chain(redirect(false)).chain(mn(false)).chain(reject(false)).collect();
+    for n in names {
+        if let Some(mut sc) = base.iter().find(|s| s.name == n).cloned() {
+            sc.name = format!("{n}+worker-query");
+            sc.worker_query = true;
+            if sc.depth_bound == 0 {
+                sc.depth_bound = 14;
+            }
+            v.push(sc);
+        }
+    }
+    v
+}
+
 pub fn all(quick: bool) -> Vec<Scenario> {
     let mut v = Vec::new();
     v.extend(life(quick));
@@ -35,6 +56,9 @@ pub fn all(quick: bool) -> Vec<Scenario> {
     v.extend(wait(quick));
     v.extend(misc(quick));
     v.extend(grid(quick));
+    if !quick {
+        v.extend(with_worker_query());
+    }
     v
 }
 
@@ -54,6 +78,7 @@ pub fn family(name: &str, quick: bool) -> Vec<Scenario> {
         "misc" => misc(quick),
         "journal" => journal(quick),
         "grid" => grid(quick),
+        "wq" => with_worker_query(),
         _ => vec![],
     }
 }
